@@ -584,6 +584,10 @@ pub fn run_script<'a, E: Elem, Tr: ?Sized + TrSet, M: MemB, M2: MemB>(
                 let o = other.as_mut().expect("other");
                 lib(|| o.push(item));
             }
+            ITEM_MOVE_INSERT => {
+                let o = other.as_mut().expect("other");
+                lib(|| o.insert(0, item));
+            }
             _ => {
                 let o = other.as_mut().expect("other");
                 Tr::item_lazy::<E, M, M2>(&item, o, cx);
@@ -971,6 +975,40 @@ pub fn mutate_step<E: Elem, Tr: ?Sized + TrSet, M: MemB>(v: &mut AnyVec<Tr, M>, 
     };
     cx.ev.push(val_ev(old.tag()));
     drop(old);
+    // read the written value back through every view
+    let want = r.tags[0];
+    let size = size_of::<E>();
+    let mut ok = true;
+    {
+        let e = lib(|| v.at(i));
+        ok &= tag_of::<_, E>(&*e) == Ev::Val(want);
+        let b = lib(|| e.as_bytes());
+        ok &= b.len() == size && unsafe { decode(b.as_ptr(), size) } == want;
+    }
+    {
+        let e = lib(|| v.at_mut(i));
+        ok &= tag_of::<_, E>(&*e) == Ev::Val(want);
+    }
+    {
+        let b = lib(|| v.as_bytes());
+        ok &= b.len() >= (i + 1) * size && unsafe { decode(b[i * size..].as_ptr(), size) } == want;
+    }
+    {
+        let mut it = lib(|| v.iter());
+        match lib(|| it.nth(i)) {
+            Some(e) => ok &= tag_of::<_, E>(&*e) == Ev::Val(want),
+            None => ok = false,
+        }
+    }
+    if let Some(tv) = lib(|| v.downcast_ref::<E>()) {
+        ok &= lib(|| tv.at(i)).tag() == want;
+        ok &= lib(|| tv.get(i)).map(|x| x.tag()) == Some(want);
+        ok &= lib(|| tv.as_slice()).get(i).map(|x| x.tag()) == Some(want);
+        ok &= lib(|| tv.iter()).nth(i).map(|x| x.tag()) == Some(want);
+    } else {
+        ok = false;
+    }
+    cx.ev.push(Ev::Bool(ok));
 }
 
 pub fn swap_fresh_step<E: Elem, Tr: ?Sized + TrSet, M: MemB>(v: &mut AnyVec<Tr, M>, r: &RStep, cx: &mut Cx<E>) {
@@ -1428,7 +1466,7 @@ where
             }
             Op::Drain | Op::Splice => {
                 let needs_other = r.other != r.slot
-                    && (r.script.iter().any(|b| matches!(b >> 1, ITEM_MOVE | ITEM_LAZY))
+                    && (r.script.iter().any(|b| matches!(b >> 1, ITEM_MOVE | ITEM_LAZY | ITEM_MOVE_INSERT))
                         || (r.op == Op::Splice && r.via != VIA_TYPED && matches!(r.kind, REPL_LAZY | REPL_DRAIN)));
                 if needs_other {
                     if r.op == Op::Drain {
